@@ -4,7 +4,7 @@ export GOFLAGS=-mod=mod GOPROXY=off GOSUMDB=off GOTOOLCHAIN=local
 PROP=$1; N=${2:-50}; SEED=${3:-1}
 REPO=${EVSIM_REPO:-/repo}
 (cd /verif/instr && go1.26.8 build -o /var/tmp/instr.dev . ) || exit 2
-/var/tmp/instr.dev -repo $REPO -out /var/tmp/ov-dev -maporder ./x/evm/...,./x/cpc/...,./x/feemarket/...,./x/vauth/...,./app/...,./types/...,./utils/...,./rpc/ethereum/pubsub/...,./rpc/namespaces/ethereum/eth/filters/... -yield ./rpc/ethereum/pubsub/...,./rpc/namespaces/ethereum/eth/filters/... || exit 2
+/var/tmp/instr.dev -repo $REPO -out /var/tmp/ov-dev -maporder ./x/evm/...,./x/cpc/...,./x/feemarket/...,./x/vauth/...,./app/...,./types/...,./utils/...,./rpc/ethereum/pubsub/...,./rpc/namespaces/ethereum/eth/filters/...,./rpc -yield ./rpc/ethereum/pubsub/...,./rpc/namespaces/ethereum/eth/filters/...,./rpc || exit 2
 sed "s#=> /repo\$#=> $REPO#" /verif/evsim/go.mod > /var/tmp/dev.go.mod; cp /verif/evsim/go.sum /var/tmp/dev.go.sum
 cd /verif/evsim && go1.26.8 test -modfile=/var/tmp/dev.go.mod -overlay=/var/tmp/ov-dev/overlay.json -c -o /var/tmp/evsim.dev.test . || exit 2
 cd /var/tmp && EVSIM_PROP=$PROP EVSIM_SEED=$SEED EVSIM_FROM=0 EVSIM_TO=$N EVSIM_OUT=/var/tmp/dev.jsonl ./evsim.dev.test -test.run '^TestEvsim$' -test.timeout 1h 2>&1 | grep -v "^####" | tail -5
